@@ -125,6 +125,21 @@ func checkC12(ctx *Ctx) {
 	d2, pre2 := rt.desc()
 	d2.RunTo, d2.RunToKind = []string{"P1"}, "name"
 	wfs = append(wfs, wf{"runto-feeders", d2, pre2, []string{"SCIPIPE_BUFSIZE=1"}})
+	// RunTo while many FromStr feeders are just finishing (default buffer: a feeder is done as soon as it is started,
+	// i.e. while RunTo walks the port maps)
+	fast := Dag{Max: 4, Nodes: []DNode{{Name: "s0", Kind: "src", Items: 2}}}
+	prevN := "s0"
+	for i := 0; i < 6; i++ {
+		nm := fmt.Sprintf("P%d", i)
+		fast.Nodes = append(fast.Nodes, DNode{Name: nm, Kind: "proc", Ins: []string{prevN}, PIn: "@", PVals: []string{"a", "b"}})
+		prevN = nm
+	}
+	d3, pre3 := fast.desc()
+	d3.RunTo, d3.RunToKind = []string{"P5"}, "name"
+	d3.LateFeeders = true
+	for k := 0; k < 4; k++ {
+		wfs = append(wfs, wf{fmt.Sprintf("runto-fast-feeders-%d", k), d3, pre3, nil})
+	}
 	// sub-stream join
 	wfs = append(wfs, wf{"substream", &Desc{Name: "ss", Max: 3, Nodes: []Node{{Name: "src", Kind: "filesource", Paths: []string{"m0.txt", "m1.txt", "m2.txt"}}, {Name: "sts", Kind: "substream"},
 		{Name: "join", Kind: "proc", Cmd: "cat {i:in|join: } > {o:out}", Outs: map[string]string{"out": "joined.out"}}},
